@@ -285,6 +285,11 @@ func (t *Transport) CleanupChannel(chid datatransfer.ChannelID) {
 
 	// Clean up the channel
 	if ok {
+		// An OpenChannel call may be waiting, holding the channel lock, for a
+		// graphsync request of this channel to be opened (the events handler
+		// refused the request, or the channel ended meanwhile): release it so
+		// that cleanup can take the lock
+		ch.markCleanedUp()
 		ch.cleanup()
 	}
 }
@@ -888,6 +893,7 @@ func (t *Transport) newDTChannel(chid datatransfer.ChannelID) *dtChannel {
 		t:         t,
 		channelID: chid,
 		opened:    make(chan graphsync.RequestID, 1),
+		cleanedUp: make(chan struct{}),
 	}
 }
 
@@ -933,6 +939,11 @@ type dtChannel struct {
 	pendingExtensions  []graphsync.ExtensionData
 
 	opened chan graphsync.RequestID
+	// cleanedUp is closed when the channel is cleaned up (it is then no longer
+	// tracked by the transport): an open call on it must not keep waiting for
+	// its request to be opened
+	cleanedUp     chan struct{}
+	cleanedUpOnce sync.Once
 
 	optionsLk       sync.RWMutex
 	storeRegistered bool
@@ -959,6 +970,14 @@ func (c *dtChannel) open(
 ) (*gsReq, error) {
 	c.lk.Lock()
 	defer c.lk.Unlock()
+
+	// The channel was cleaned up while this call was waiting for the lock: it
+	// is no longer tracked by the transport, so do not open a request on it
+	select {
+	case <-c.cleanedUp:
+		return nil, fmt.Errorf("%s: %w", chid, datatransfer.ErrChannelNotFound)
+	default:
+	}
 
 	// If there is an existing graphsync request for this channelID
 	if c.requestID != nil {
@@ -1008,6 +1027,8 @@ func (c *dtChannel) open(
 	select {
 	case <-ctx.Done():
 		return nil, ctx.Err()
+	case <-c.cleanedUp:
+		return nil, fmt.Errorf("%s: graphsync request was not opened: %w", chid, datatransfer.ErrChannelNotFound)
 	case requestID := <-c.opened:
 		// Mark the channel as open and save the Graphsync request key
 		c.isOpen = true
@@ -1048,7 +1069,20 @@ func (c *dtChannel) gsReqOpened(requestID graphsync.RequestID, hookActions graph
 	// subsequent graphsync callbacks are associated with this channel
 	c.t.requestIDToChannelID.set(requestID, false, c.channelID)
 
-	c.opened <- requestID
+	select {
+	case c.opened <- requestID:
+	default:
+		// An earlier signal was never consumed because the open call it was
+		// meant for gave up (the channel was cleaned up in the meantime):
+		// nobody is waiting, so don't block graphsync's hook
+	}
+}
+
+// markCleanedUp is called when the channel is cleaned up, before the cleanup
+// takes the channel lock: it releases an open call that is waiting (holding
+// that lock) for its graphsync request to be opened, now or later
+func (c *dtChannel) markCleanedUp() {
+	c.cleanedUpOnce.Do(func() { close(c.cleanedUp) })
 }
 
 // gsDataRequestRcvd is called when the transport receives an incoming request
